@@ -1,7 +1,7 @@
 import json, os, re
 
 SPEC = {
-    "lean_modules": ["SemaModel.C08.Props"],
+    "lean_modules": ["SemaModel.C08.Props", "SemaModel.C08.Pins"],
     "lean_dirs": ["SemaModel/C08", "SemaModel/C04"],
     "harness": "c08",
     "harness_args": {
